@@ -89,7 +89,7 @@ class Harness:
 
     def run(self, lines):
         with ThreadPoolExecutor(max_workers=8) as ex:
-            return list(ex.map(self.one, lines))
+            return list(ex.map(rig.guarded(self.one, list(self.sq.values())), lines))
 
     def close(self):
         for s in self.sq.values():
